@@ -1283,7 +1283,7 @@ class vRecur(CaselessDict):
             typ = self.types.get(key, vText)
             if not isinstance(vals, SEQUENCE_TYPES):
                 vals = [vals]
-            vals = b','.join(typ(val).to_ical() for val in vals)
+            vals = b','.join(from_unicode(typ(val).to_ical()) for val in vals)
 
             # CaselessDict keys are always unicode
             key = key.encode(DEFAULT_ENCODING)
